@@ -86,6 +86,8 @@ def check_bijection(case, ctx):
     # rounding legitimately puts jit and eager on different sides (either one-sided log-det is acceptable, cf. C02)
     case = dict(case, inp=dict(case["inp"], xpick=[-1] * len(case["inp"]["xpick"])))
     s = bc.prepare(case)
+    # ... and no "round" inputs either (Hypothesis draws 2.0, -1.0, ... which are spline interval ends): shift by an odd amount
+    s.x = bd.to_domain(np.asarray(s.x) + 0.0013719, s.dom) if s.dom is not None else np.asarray(s.x) + 0.0013719
     obj, x, cj = s.obj, jnp.asarray(s.x), s.cj
     who = f"{s.kind}|{s.name}"
     case2 = dict(case, pscale=max(float(case.get("pscale", 0.3)), 0.2))
@@ -257,6 +259,9 @@ def check_dist(c, ctx):
 
 def oracle(case, ctx):
     ctx.evaluated()
+    if ctx.evaluations % 6 == 0:  # every case compiles ~20 executables: release their memory maps often (DESIGN F4)
+        from vf.core import clear_jax_caches
+        clear_jax_caches()
     nt = check_dist(case, ctx) if "dist" in case else check_bijection(case, ctx)
     if nt:
         ctx.mark_nontrivial(case)
